@@ -503,6 +503,13 @@ let () =
             | BEof b -> Printf.printf "Z %d\n" (int_of_n b)
             | BNoBuffer -> Printf.printf "NOBUF\n") evs;
         Printf.printf "END\n"
+      | L [A "ledger"; L evs] ->
+        let ev_of = function
+          | L [A "a"; p] -> AAlloc (n_of_int (ai p))
+          | L [A "r"; o; n] -> ARealloc (n_of_int (ai o), n_of_int (ai n))
+          | L [A "f"; p] -> AFree (n_of_int (ai p))
+          | _ -> failwith "aev" in
+        Printf.printf "ledger %b\n" (ledger_ok (List.map ev_of evs))
       | L [A "kinds"] ->
         Printf.printf "kinds %s\n" (String.concat " " (List.map (fun r ->
             match rule_kind r with
